@@ -13,6 +13,7 @@ PROP = {
              "patterns match the request URL or a matching pattern is declared for >=2 methods; distinct = distinct canonical JSON of "
              "(declarations, request)"),
     "assumptions": [
+        "unit TestDiagnosisFreeRevert: the declarations (fixed_response remedies, a third with a diagnosis only) are written as a policies file and loaded through config.BuildInitialFromFile; as loaded, after RevertToDiagnosisFree and after RevertToLastLoaded the accessor's tree must answer every request exactly like a tree built directly from the declared patterns with that mode's plugins (differential oracle, independent of the listed look-up findings)",
         "the same (method, URL pattern) pair is declared at most once per set (a repeated pair is last-writer-wins by construction and is not generated)",
         "every declaration in a set uses its own remedy type, so checkForDuplicates does not reject the set (rejection itself is order-dependent and outside this statement)",
         "request URLs contain no empty, '{..}'-shaped or '*' segments inside; one request in eight ends in separators ('/', '.', '//'): it is judged against the URL without them (the engine documents that it ignores separators around a URL), and 'no policy at all' is accepted too",
@@ -23,6 +24,7 @@ PROP = {
     "units": [
         {"pkg": "c13", "test": "TestPolicyTreeRandom", "quick": 6000, "thorough": 40000, "shards": 16},
         {"pkg": "c13", "test": "TestDispatchAgreesWithSelection", "quick": 3000, "thorough": 20000, "shards": 4},
+        {"pkg": "c13", "test": "TestDiagnosisFreeRevert", "quick": 400, "thorough": 5000, "shards": 4},
         {"pkg": "c13", "test": "TestPolicyTreeSmallScope", "kind": "plain"},
         {"pkg": "c13", "test": "TestWitnessAliasedPolicyMap", "kind": "plain"},
         {"pkg": "c13", "test": "TestWitnessGreedyDescent", "kind": "plain"},
